@@ -61,8 +61,8 @@ theorem applyPending_chain (state : Int) (pending : List Upd) :
 state; the state afterwards is the end of that batch (or unchanged if the callback failed). -/
 theorem handle_emits_chain (b : Box) (u : Upd) (ok : Bool) :
     ((handle b u ok).2 = [] ∧ (handle b u ok).1.state = b.state) ∨
-    (∃ ns us ok', (handle b u ok).2 = [.apply ns us ok'] ∧ chain b.state us = some ns ∧ us ≠ [] ∧
-        (handle b u ok).1.state = if ok' then ns else b.state) :=
+    (∃ ns us, (handle b u ok).2 = [.apply ns us ok] ∧ chain b.state us = some ns ∧ us ≠ [] ∧
+        (handle b u ok).1.state = if ok then ns else b.state) :=
   handle_shape b u ok
 
 /-- The local position moves only to the end of a batch delivered in order, or to a position set
@@ -77,19 +77,19 @@ theorem state_moves_only_by_apply_or_setState (b : Box) (op : Op)
   | clearGaps => exact absurd rfl h
   | handle u ok =>
     right
-    rcases handle_shape b u ok with ⟨_, h2⟩ | ⟨ns, us, ok', h1, h2, h3, h4⟩
+    rcases handle_shape b u ok with ⟨_, h2⟩ | ⟨ns, us, h1, h2, h3, h4⟩
     · exact absurd h2 h
-    · cases ok'
+    · cases ok
       · exact absurd (by simpa [step] using h4) h
-      · have h4' : (handle b u ok).1.state = ns := by simpa using h4
+      · have h4' : (handle b u true).1.state = ns := by simpa using h4
         exact ⟨us, by simp only [step]; rw [h4', h1], by simp only [step]; rw [h4']; exact h2, h3⟩
   | applyPending ok =>
     right
-    rcases applyPending_shape b ok b rfl with ⟨_, h2⟩ | ⟨ns, us, ok', h1, h2, h3, h4⟩
+    rcases applyPending_shape b ok b rfl with ⟨_, h2⟩ | ⟨ns, us, h1, h2, h3, h4⟩
     · exact absurd h2 h
-    · cases ok'
+    · cases ok
       · exact absurd (by simpa [step] using h4) h
-      · have h4' : (applyPending b ok).1.state = ns := by simpa using h4
+      · have h4' : (applyPending b true).1.state = ns := by simpa using h4
         exact ⟨us, by simp only [step]; rw [h4', h1], by simp only [step]; rw [h4']; exact h2, h3⟩
 
 /-- **In order.** For every starting box (reachable or not) and every op list — any interleaving
